@@ -38,8 +38,9 @@ func fmtRequirementsComments() *format {
 			{name: "place", labels: []string{"trailing", "own-line-after-record", "own-line-indented"}},
 			{name: "comment", kind: posIdx, labels: labels},
 		},
-		newEx: func() filesystem.Extractor { return requirements.NewDefault() },
-		norm:  normPyPI,
+		newEx:       func() filesystem.Extractor { return requirements.NewDefault() },
+		norm:        normPyPI,
+		maxThorough: 3,
 	}
 	f.gen = func(recs []rec, lay []int) genOut {
 		l := layout{f, lay}
